@@ -6,7 +6,7 @@ import extract as X
 import b1_cbmc as B1
 
 ROOT = os.path.dirname(os.path.dirname(os.path.abspath(__file__)))
-OUT = os.path.join(ROOT, 'out')
+OUT = os.environ.get('VP_OUT') or os.path.join(ROOT, 'out')
 SPECS = os.path.join(ROOT, 'specs')
 PRELUDE = os.path.join(ROOT, 'vp', 'prelude')
 
@@ -420,7 +420,7 @@ def cached(job, tier, key_material, compute):
     h.update(json.dumps({k: v for k, v in job.items() if k not in ('opts',)}, sort_keys=True, default=str).encode())
     h.update(tier.encode())
     key = h.hexdigest()[:32]
-    cdir = os.path.join(OUT, 'cache')
+    cdir = os.environ.get('VP_CACHE') or os.path.join(OUT, 'cache')
     os.makedirs(cdir, exist_ok=True)
     path = os.path.join(cdir, '%s_%s.json' % (job['name'], key))
     lock = open(path + '.lock', 'w')
